@@ -125,6 +125,8 @@ def run(tier):
     lens = (corpus.LENS_QUICK if tier == "quick" else corpus.LENS_THOROUGH) + [(2, 3, 2, 2, 1, 3)]
     cases = corpus.generate(rep, [("update_at", ["a", "b"], lens, 2, 3)])
     rep.exhaustive = True
+    if tier == "thorough":
+        cases = corpus.cap(cases, 12000)      # an uncapped thorough run (about 90 000 cases x 4 coordinate draws) did not finish within 40 minutes
     if tier == "quick":
         cases = cases[::17]         # stride coprime to the enumeration periods: every target / coordinate / update shape still occurs
     items = [{"case": c, "seed": common.seed() * 7919 + i, "nrandom": 1 if tier == "quick" else 4} for i, c in enumerate(cases)]
